@@ -188,6 +188,11 @@ func (s scenario) request(t *rapid.T, withForwards bool, repeat bool) vkit.Logic
 					name = randCase(t, f.Name)
 				}
 
+				// (a header may come on several lines, the first of which may be empty)
+				if repeat && t != nil && rapid.IntRange(0, 2).Draw(t, "emptyFirstLine") == 1 {
+					lr.Headers = append(lr.Headers, vkit.HeaderKV{Name: name, Value: ""})
+				}
+
 				lr.Headers = append(lr.Headers, vkit.HeaderKV{Name: name, Value: v})
 
 				if repeat {
